@@ -344,7 +344,13 @@ def run_scenario(ex, fnode, c, scen):
                 ok = isinstance(cur, RefVal) and ex.resolve(cur.path).same(want)
                 ex.oblige('ensures', 'binds_' + fld, z3.BoolVal(bool(ok)), None, props=c.props_for('binds'))
             for lab, e in c.ensures:
-                ex.oblige('ensures', lab, S.spec_eval(e, env_post, ex2), None, props=c.props_for(lab))
+                try:
+                    goal_ = S.spec_eval(e, env_post, ex2)
+                except Exception as ne:
+                    if lab.startswith('local:') and 'not bound' in str(ne):
+                        continue      # a clause about the function's own locals says nothing on a path that does not have them
+                    raise
+                ex.oblige('ensures', lab, goal_, None, props=c.props_for(lab))
                 if lab.startswith('hint:') or getattr(c, 'chain', False):
                     # proof hint: an intermediate assertion over the function's own variables; once it is an obligation
                     # of its own it may be used for the clauses that follow (never exported to callers)
